@@ -1,2 +1,230 @@
-(* C14 — stub: no theorems yet *)
+(* C14 — SugaredLogger never drops or misattributes loosely-typed arguments.
+   Only statements closed by [exact]; the proofs are in C14/Proofs.v.
+
+   Every theorem of the first group is generic: it holds for ANY type V of Go values, ANY
+   type F of fields, ANY behaviour of the three type assertions (as_field = .(Field),
+   is_error = .(error), as_string = .(string)) and ANY zap.Any / zap.NamedError /
+   Array("invalid", ..) — the argument lists, loggers, With chains and calls are universally
+   quantified, with no bound on length.  [items] is the specification's reading of an
+   argument list (Model.v, second half); [sweeten] is the model of sweetenFields' index loop. *)
+From Coq Require Import List ZArith Bool Sorted.
+From Coq.Strings Require Import Byte.
+Import ListNotations.
 From Zap Require Import Base.Wire C14.Model C14.Proofs.
+
+(* no index is ever out of range and the loop terminates, whatever the argument list *)
+Theorem C14_total :
+  forall V F (as_field : V -> option F) is_error as_string any_fld named_error (args : list V),
+  exists s, sweep V F as_field is_error as_string any_fld named_error (S (length args)) args 0 sw_init = Done s.
+Proof. exact sweep_total. Qed.
+Print Assumptions C14_total.
+
+(* no With chain / logging call of any family at any level ends in a run-time panic of the
+   sugar layer (fmt_facts: Sprintln's result ends in a newline) *)
+Theorem C14_never_crash :
+  forall V F (as_field : V -> option F) is_error as_string any_fld named_error array_invalid
+         (lg : logger F) (withs : list (list V)) (c : call V),
+  fmt_facts V as_string c ->
+  snd (run V F as_field is_error as_string any_fld named_error array_invalid lg withs c) <> TCrash.
+Proof. exact never_crash. Qed.
+Print Assumptions C14_never_crash.
+
+(* accounting: the sweep returns exactly the fields of the consumed items and makes exactly
+   the diagnostic calls of the reported items; the items tile the positions 0..n-1 (nothing
+   vanishes, nothing is used twice); each item holds what sits at its position(s); an item is
+   consumed xor reported; consumed <-> logged; reported -> identified by a diagnostic *)
+Theorem C14_account :
+  forall V F (as_field : V -> option F) is_error as_string any_fld named_error array_invalid (args : list V),
+  let its := items V F as_field is_error as_string 0 false args in
+  sweeten V F as_field is_error as_string any_fld named_error array_invalid args
+    = Done (fields_of V F any_fld named_error its, diag_calls_of V F any_fld named_error array_invalid its) /\
+  concat (map span its) = seq 0 (length args) /\
+  Forall (item_at V F as_field is_error as_string args) its /\
+  (forall it, In it its -> (out_field V F any_fld named_error it = None <-> reported it = true)) /\
+  (forall it f, In it its -> out_field V F any_fld named_error it = Some f -> In f (fields_of V F any_fld named_error its)) /\
+  (forall f, In f (fields_of V F any_fld named_error its) -> exists it, In it its /\ out_field V F any_fld named_error it = Some f) /\
+  (forall it, In it its -> identified V F any_fld named_error array_invalid its it).
+Proof. exact account_thm. Qed.
+Print Assumptions C14_account.
+
+(* order: the items (hence the output fields, a filter_map over them) follow the positions *)
+Theorem C14_order :
+  forall V F (as_field : V -> option F) is_error as_string (args : list V),
+  StronglySorted lt (map start (items V F as_field is_error as_string 0 false args)) /\
+  NoDup (concat (map span (items V F as_field is_error as_string 0 false args))).
+Proof. exact order_thm. Qed.
+Print Assumptions C14_order.
+
+(* a typed field in key position is the Field found there, and is in the output unchanged *)
+Theorem C14_typed_unchanged :
+  forall V F (as_field : V -> option F) is_error as_string any_fld named_error array_invalid (args : list V) p f,
+  In (IField p f) (items V F as_field is_error as_string 0 false args) ->
+  (exists a, nth_error args p = Some a /\ as_field a = Some f) /\
+  exists fs calls, sweeten V F as_field is_error as_string any_fld named_error array_invalid args = Done (fs, calls) /\ In f fs.
+Proof. exact typed_unchanged_thm. Qed.
+Print Assumptions C14_typed_unchanged.
+
+(* only typed fields: they come back unchanged, in order, with no diagnostic *)
+Theorem C14_all_typed :
+  forall V F (as_field : V -> option F) is_error as_string any_fld named_error array_invalid fs (args : list V),
+  map as_field args = map Some fs ->
+  sweeten V F as_field is_error as_string any_fld named_error array_invalid args = Done (fs, []).
+Proof. exact all_typed_thm. Qed.
+Print Assumptions C14_all_typed.
+
+(* string-keyed pairs (any values, typed fields and errors included) become Any(key, value), in order *)
+Theorem C14_pairs_any :
+  forall V F (as_field : V -> option F) is_error as_string any_fld named_error array_invalid (kvs : list (V * bytes * V)),
+  Forall (good_key V F as_field is_error as_string) kvs ->
+  sweeten V F as_field is_error as_string any_fld named_error array_invalid (flat_pairs V kvs)
+    = Done (map (fun t => any_fld (snd (fst t)) (snd t)) kvs, []).
+Proof. exact pairs_any_thm. Qed.
+Print Assumptions C14_pairs_any.
+
+(* ... also inside arbitrary lists: a pair item is a string key followed by its value, logged as Any *)
+Theorem C14_pair_at :
+  forall V F (as_field : V -> option F) is_error as_string any_fld named_error array_invalid (args : list V) p k v,
+  In (IPair p k v) (items V F as_field is_error as_string 0 false args) ->
+  (exists a, nth_error args p = Some a /\ as_string a = Some k /\ nth_error args (S p) = Some v) /\
+  exists fs calls, sweeten V F as_field is_error as_string any_fld named_error array_invalid args = Done (fs, calls) /\ In (any_fld k v) fs.
+Proof. exact pair_at_thm. Qed.
+Print Assumptions C14_pair_at.
+
+(* the first bare error is logged as NamedError("error", e); every further one is reported *)
+Theorem C14_first_error :
+  forall V F (as_field : V -> option F) is_error as_string any_fld named_error array_invalid (args : list V),
+  let its := items V F as_field is_error as_string 0 false args in
+  match filter (is_err_item V F) its with
+  | [] => True
+  | first :: rest =>
+      (exists p e, first = IFirstErr p e /\ out_field V F any_fld named_error first = Some (named_error key_error e)) /\
+      Forall (fun it => exists p e, it = IExtraErr p e /\
+                In (multipleErrMsg, [named_error key_error e]) (diag_calls_of V F any_fld named_error array_invalid its)) rest
+  end.
+Proof. exact first_error_thm. Qed.
+Print Assumptions C14_first_error.
+
+(* With / WithLazy: never fail; the context grows by exactly the well-formed arguments; the
+   diagnostics are error-level entries (if that level is enabled) with the receiver's context *)
+Theorem C14_with :
+  forall V F (as_field : V -> option F) is_error as_string any_fld named_error array_invalid (lg : logger F) (args : list V),
+  let its := items V F as_field is_error as_string 0 false args in
+  swith V F as_field is_error as_string any_fld named_error array_invalid lg args
+    = Done (with_ctx F lg (fields_of V F any_fld named_error its),
+            spec_diag_entries lg (diag_calls_of V F any_fld named_error array_invalid its)).
+Proof. exact with_thm. Qed.
+Print Assumptions C14_with.
+
+(* content of the diagnostics when the error level is enabled: one entry per further bare error,
+   one for the dangling key (value under "ignored"), one listing (position, key, value) of every
+   non-string-keyed pair *)
+Theorem C14_diags :
+  forall V F (as_field : V -> option F) is_error as_string any_fld named_error array_invalid (lg : logger F) (args : list V),
+  lg_en lg ErrorLevel = true ->
+  let its := items V F as_field is_error as_string 0 false args in
+  exists lg', swith V F as_field is_error as_string any_fld named_error array_invalid lg args = Done (lg',
+    map (fun e => Build_entry ErrorLevel multipleErrMsg (lg_ctx lg ++ [named_error key_error e])) (extra_errs V F its)
+    ++ map (fun k => Build_entry ErrorLevel oddNumberErrMsg (lg_ctx lg ++ [any_fld key_ignored k])) (danglings V F its)
+    ++ match bad_pairs V F its with
+       | [] => []
+       | ps => [Build_entry ErrorLevel nonStringKeyErrMsg (lg_ctx lg ++ [array_invalid ps])]
+       end).
+Proof. exact diags_thm. Qed.
+Print Assumptions C14_diags.
+
+(* limitation made explicit: the report IS an error-level entry, so a core that does not enable
+   ErrorLevel (e.g. a logger at PanicLevel) drops it -- the malformed arguments then vanish *)
+Theorem C14_diags_need_error_level :
+  forall V F (as_field : V -> option F) is_error as_string any_fld named_error array_invalid (lg : logger F) (args : list V),
+  lg_en lg ErrorLevel = false ->
+  exists lg', swith V F as_field is_error as_string any_fld named_error array_invalid lg args = Done (lg', []).
+Proof. exact diags_need_error_level. Qed.
+Print Assumptions C14_diags_need_error_level.
+
+(* a call of any family at an enabled level: its diagnostics, then exactly one entry at that level
+   with the prescribed message and context ++ well-formed arguments.  [not_empty_template] is the
+   guard of the known finding sugar-empty-template-with-args (f-family: template <> "" \/ no args) *)
+Theorem C14_call_enabled :
+  forall V F (as_field : V -> option F) is_error as_string any_fld named_error array_invalid (lg : logger F) (c : call V),
+  lg_en lg (c_lvl c) = true -> fmt_facts V as_string c -> not_empty_template V c ->
+  let its := items V F as_field is_error as_string 0 false (call_context c) in
+  exists msg, msg_ok V c msg = true /\
+    do_call V F as_field is_error as_string any_fld named_error array_invalid lg c =
+      (spec_diag_entries lg (diag_calls_of V F any_fld named_error array_invalid its)
+         ++ [Build_entry (c_lvl c) msg (lg_ctx lg ++ fields_of V F any_fld named_error its)],
+       terminal lg (c_lvl c)).
+Proof. exact call_enabled. Qed.
+Print Assumptions C14_call_enabled.
+
+Theorem C14_call_disabled :
+  forall V F (as_field : V -> option F) is_error as_string any_fld named_error array_invalid (lg : logger F) (c : call V),
+  lg_en lg (c_lvl c) = false -> fmt_facts V as_string c ->
+  let its := items V F as_field is_error as_string 0 false (call_context c) in
+  do_call V F as_field is_error as_string any_fld named_error array_invalid lg c = ([], TNone) \/
+  do_call V F as_field is_error as_string any_fld named_error array_invalid lg c =
+    (spec_diag_entries lg (diag_calls_of V F any_fld named_error array_invalid its), terminal lg (c_lvl c)).
+Proof. exact call_disabled. Qed.
+Print Assumptions C14_call_disabled.
+
+(* messages.  print-style = Sprint (given Sprint() = "" and Sprint(s) = s); println-style =
+   Sprintln without its newline; printf-style = template when there are no arguments, Sprintf
+   otherwise -- PARTIAL: proved for template <> "" \/ args = [] *)
+Theorem C14_message_print :
+  forall V (as_string : V -> option bytes) (args : list V) sprintf sprint,
+  (args = [] -> sprint = []) ->
+  (forall a s, args = [a] -> as_string a = Some s -> sprint = s) ->
+  get_message V as_string [] args sprintf sprint = sprint.
+Proof. exact message_print. Qed.
+Print Assumptions C14_message_print.
+
+Theorem C14_message_ln : forall m, get_messageln (m ++ [x0a]) = Some m.
+Proof. exact message_ln. Qed.
+Print Assumptions C14_message_ln.
+
+Theorem C14_messages_partial :
+  forall V (as_string : V -> option bytes) template (args : list V) sprintf sprint,
+  template <> [] \/ args = [] ->
+  get_message V as_string template args sprintf sprint = if is_nil args then template else sprintf.
+Proof. exact message_f_partial. Qed.
+Print Assumptions C14_messages_partial.
+
+(* the full printf statement (no guard) is false of the code: getMessage("", [1; 2]) is Sprint *)
+Theorem C14_messages_full_refuted : ~ messages_full.
+Proof. exact messages_full_refuted. Qed.
+Print Assumptions C14_messages_full_refuted.
+
+(* the same deviation at the wire: Infof("", 1, 2) -- the oracle rejects the model's (= the code's) output *)
+Theorem C14_wire_kf_refuted : fmt_wf kf_witness = true /\ spec kf_witness (model kf_witness) = false.
+Proof. exact kf_witness_refuted. Qed.
+Print Assumptions C14_wire_kf_refuted.
+
+(* wire link: the oracle the driver runs accepts the model's observation on every case
+   satisfying the fmt facts and outside the known finding *)
+Theorem C14_wire : forall i, wf i = true -> spec i (model i) = true.
+Proof. exact spec_model. Qed.
+Print Assumptions C14_wire.
+
+(* ---- non-vacuity ---- *)
+(* ("k", 1, err1, err2, 7, 8, field, "d"): three fields (Any k 1, Error err1, the field), three
+   diagnostics (further error, dangling key, one invalid pair at position 4) *)
+Example C14_example_sweep :
+  match w_sweeten ex_args with
+  | Done ([f1; f2; f3], [(m1, [d1]); (m2, [d2]); (m3, [d3])]) =>
+      f1 = w_any [x6b] (ex_int 1) /\ f2 = w_named_error key_error (ex_err 1) /\ Some f3 = w_as_field (ex_fld [x66]) /\
+      m1 = multipleErrMsg /\ d1 = w_named_error key_error (ex_err 2) /\
+      m2 = oddNumberErrMsg /\ d2 = w_any key_ignored (ex_str [x64]) /\
+      m3 = nonStringKeyErrMsg /\ d3 = w_array_invalid [(4, ex_int 7, ex_int 8)]
+  | _ => False
+  end.
+Proof. vm_compute. repeat split; reflexivity. Qed.
+
+Example C14_example_wf : wf ex_case = true /\ spec ex_case (model ex_case) = true /\
+  length (sx_l (sx_nth (model ex_case) 1)) = 7.
+Proof. vm_compute. repeat split; reflexivity. Qed.
+
+Example C14_example_good_key :
+  Forall (good_key sx sx w_as_field w_is_error w_as_string) [(ex_str [x6b], [x6b], ex_err 1); (ex_str [x64], [x64], ex_fld [x66])].
+Proof. repeat constructor. Qed.
+
+Example C14_example_fmt_facts : fmt_facts sx w_as_string (dec_call ex_case) /\ not_empty_template sx (dec_call ex_case).
+Proof. split; exact I. Qed.
